@@ -134,6 +134,7 @@ def generate(tier, rng):
         {'jsonrpc': '2.0', 'id': 4, 'result': 1, 'error': {'code': 1, 'message': 'm'}}, {'jsonrpc': '2.0', 'id': True, 'result': 1},
         {'jsonrpc': '2.0', 'result': 5}, {'id': 6, 'result': 1}, 1, None, [], {'jsonrpc': '2.0', 'id': 0, 'result': []},
         {'jsonrpc': '2.0', 'id': 7, 'error': {'code': '1', 'message': 'm'}},
+        {'jsonrpc': '2.0', 'id': None, 'error': {'code': -32600, 'message': 'Invalid Request'}},     # an *element* error without an id
     ]
     maxlen = 3
     for n in range(0, maxlen + 1):
@@ -197,8 +198,8 @@ def generate(tier, rng):
             yield _case('req_build', req=_req_spec('m', {'arg': pl}, i))
     # errors: every class x explicit / default code and message x data
     for cls in U.ALL:
-        for code in (None, 0, 1, -1, 2001, 2002, -32601, 2 ** 40, -5):
-            for msg in (None, '', 'msg', 'é\U0001F600'):
+        for code in (None, 0, 1, -1, 2001, 2002, -32601, 2 ** 40, -5, -32050, -32001, -32099, -32100):
+            for msg in (None, '', 'msg', 'é\U0001F600', 'Method not found.'):
                 for data in ([ABSENT, None, 0, {'a': [1]}] if not thorough else [ABSENT] + PAYLOADS):
                     for ecls in (E.JsonRpcError, U.ClientBaseError):
                         yield _case('err_build', err=_err_spec(cls, code, msg, data), reg=REG, cls=_cls_json(ecls))
@@ -224,6 +225,7 @@ def generate(tier, rng):
                 continue
             yield _case('breq_build', reqs=list(combo))
     bresp_elems = [_resp_spec(1, 1), _resp_spec(2, None), _resp_spec('1', error=_err_spec(U.UserError2001)), _resp_spec(None, 0),
+                   _resp_spec(None, error=_err_spec(E.InvalidRequestError)),
                    _resp_spec(1, error=_err_spec(E.JsonRpcError, 0, '')), _resp_spec(0, [])]
     for n in range(0, 4 if not thorough else 5):
         for combo in itertools.product(bresp_elems, repeat=n):
